@@ -7,6 +7,7 @@ import (
 	"reflect"
 	"runtime"
 	"runtime/debug"
+	"strconv"
 	"strings"
 
 	"github.com/bytedance/sonic"
@@ -32,6 +33,11 @@ type C06Case struct {
 	Spare   int    `json:"spare,omitempty"` // capacity beyond the prefix
 	Junk    byte   `json:"junk,omitempty"`  // initial content of the spare capacity
 	AtGuard bool   `json:"at_guard,omitempty"`
+	// into, typed variant: numbers of one Go kind (the JIT emits digits straight into the spare capacity
+	// after a per-kind space check), as a scalar, slice, struct, pointer or map value
+	NumKind  string   `json:"num_kind,omitempty"`
+	NumShape int      `json:"num_shape,omitempty"`
+	Nums     []string `json:"nums,omitempty"`
 
 	// alias
 	Doc   []byte `json:"doc,omitempty"`
@@ -89,6 +95,16 @@ func drawC06(t *rapid.T) Case {
 		c.Spare = rapid.IntRange(0, len(c.Value)*2+70).Draw(t, "spare")
 		c.Junk = byte(rapid.IntRange(0, 255).Draw(t, "junk"))
 		c.AtGuard = rapid.Bool().Draw(t, "atguard")
+		if rapid.Bool().Draw(t, "typednums") {
+			c.Value = ""
+			c.NumKind = c06NumKindNames[rapid.IntRange(0, len(c06NumKindNames)-1).Draw(t, "numkind")]
+			c.NumShape = rapid.IntRange(0, 4).Draw(t, "numshape")
+			for i, n := 0, rapid.IntRange(1, 4).Draw(t, "nnums"); i < n; i++ {
+				c.Nums = append(c.Nums, c06DrawNum(t, c.NumKind))
+			}
+			c.Prefix = []string{"", "P", "pre"}[rapid.IntRange(0, 2).Draw(t, "nprefix")]
+			c.Spare = rapid.IntRange(0, 40).Draw(t, "nspare")
+		}
 	default:
 		c.Kind = "alias"
 		c.Doc = gen.ValidDoc(t, gen.DocOpt{Str: gen.StrOpt{MaxPieces: 3}, MaxDepth: 3, KeyPool: []string{"a", "b", "A", "s"}, Nested: true})
@@ -263,7 +279,10 @@ func (c *C06Case) runInto() (res stat.Result) {
 	res.Classes = append(res.Classes, "kind:into")
 	debug.SetPanicOnFault(true)
 	var v interface{}
-	if err := json.Unmarshal([]byte(c.Value), &v); err != nil {
+	if c.NumKind != "" {
+		v = c06TypedNums(c.NumKind, c.NumShape, c.Nums)
+		res.Classes = append(res.Classes, "into-typed:"+c.NumKind, fmt.Sprintf("into-typed-shape:%d", c.NumShape))
+	} else if err := json.Unmarshal([]byte(c.Value), &v); err != nil {
 		res.Err = fmt.Errorf("harness: %v", err)
 		return
 	}
@@ -333,6 +352,9 @@ func (c *C06Case) runInto() (res stat.Result) {
 	res.NonTrivial = c.Spare < len(want) || c.AtGuard
 	if c.Spare < len(want) {
 		res.Classes = append(res.Classes, "into-must-grow")
+	}
+	if d := c.Spare - len(want); c.NumKind != "" && d >= -8 && d <= 2 {
+		res.Classes = append(res.Classes, "into-typed-spare-near-output-length")
 	}
 	return
 }
@@ -463,4 +485,99 @@ func (c *C06Case) runAlias() (res stat.Result) {
 // c06Classify maps an EncodeInto mismatch to a listed known finding.
 func c06Classify(c *C06Case, got, want []byte) string {
 	return ""
+}
+
+var c06NumKinds = map[string]reflect.Type{
+	"int8": reflect.TypeOf(int8(0)), "int16": reflect.TypeOf(int16(0)), "int32": reflect.TypeOf(int32(0)), "int64": reflect.TypeOf(int64(0)), "int": reflect.TypeOf(int(0)),
+	"uint8": reflect.TypeOf(uint8(0)), "uint16": reflect.TypeOf(uint16(0)), "uint32": reflect.TypeOf(uint32(0)), "uint64": reflect.TypeOf(uint64(0)), "uint": reflect.TypeOf(uint(0)), "uintptr": reflect.TypeOf(uintptr(0)),
+	"float32": reflect.TypeOf(float32(0)), "float64": reflect.TypeOf(float64(0)), "bool": reflect.TypeOf(false),
+}
+
+var c06NumKindNames = []string{"int8", "int16", "int32", "int64", "int", "uint8", "uint16", "uint32", "uint64", "uint", "uintptr", "float32", "float64", "bool"}
+
+// c06DrawNum draws the decimal text of a value of the kind: extremes, powers of ten and their neighbours
+// (every output length occurs), small values.
+func c06DrawNum(t *rapid.T, kind string) string {
+	rt := c06NumKinds[kind]
+	switch rt.Kind() {
+	case reflect.Bool:
+		return []string{"0", "1"}[rapid.IntRange(0, 1).Draw(t, "b")]
+	case reflect.Float32, reflect.Float64:
+		return []string{"0", "-1.5", "1e20", "-1e-7", "3.4028234663852886e38", "-3.4028234663852886e38", "1.401298464324817e-45", "-123456.78", "1e21", "-2.5e-10", "16777216", "-0.1"}[rapid.IntRange(0, 11).Draw(t, "f")]
+	}
+	bits := rt.Bits()
+	signed := rt.Kind() >= reflect.Int && rt.Kind() <= reflect.Int64
+	var cands []string
+	if signed {
+		mx := int64(1)<<(bits-1) - 1
+		cands = append(cands, strconv.FormatInt(mx, 10), strconv.FormatInt(-mx-1, 10), strconv.FormatInt(-mx, 10), "0", "-1", "7")
+		for p := int64(10); p > 0 && p <= mx; p *= 10 {
+			cands = append(cands, strconv.FormatInt(p, 10), strconv.FormatInt(p-1, 10), strconv.FormatInt(-p, 10), strconv.FormatInt(-p+1, 10))
+			if p > mx/10 {
+				break
+			}
+		}
+	} else {
+		mx := ^uint64(0) >> (64 - uint(bits))
+		cands = append(cands, strconv.FormatUint(mx, 10), "0", "1", "9")
+		for p := uint64(10); p <= mx; p *= 10 {
+			cands = append(cands, strconv.FormatUint(p, 10), strconv.FormatUint(p-1, 10))
+			if p > mx/10 {
+				break
+			}
+		}
+	}
+	return cands[rapid.IntRange(0, len(cands)-1).Draw(t, "num")]
+}
+
+// c06TypedNums builds the Go value: shape 0 scalar, 1 slice, 2 struct of fields, 3 pointer to scalar, 4 map value.
+func c06TypedNums(kind string, shape int, nums []string) interface{} {
+	rt := c06NumKinds[kind]
+	mk := func(s string) reflect.Value {
+		v := reflect.New(rt).Elem()
+		switch rt.Kind() {
+		case reflect.Bool:
+			v.SetBool(s == "1")
+		case reflect.Float32, reflect.Float64:
+			f, _ := strconv.ParseFloat(s, rt.Bits())
+			v.SetFloat(f)
+		case reflect.Int, reflect.Int8, reflect.Int16, reflect.Int32, reflect.Int64:
+			i, _ := strconv.ParseInt(s, 10, 64)
+			v.SetInt(i)
+		default:
+			u, _ := strconv.ParseUint(s, 10, 64)
+			v.SetUint(u)
+		}
+		return v
+	}
+	if len(nums) == 0 {
+		nums = []string{"0"}
+	}
+	switch shape {
+	case 1:
+		sl := reflect.MakeSlice(reflect.SliceOf(rt), 0, len(nums))
+		for _, n := range nums {
+			sl = reflect.Append(sl, mk(n))
+		}
+		return sl.Interface()
+	case 2:
+		var fs []reflect.StructField
+		for i := range nums {
+			fs = append(fs, reflect.StructField{Name: fmt.Sprintf("F%d", i), Type: rt, Tag: reflect.StructTag(fmt.Sprintf(`json:"f%d"`, i))})
+		}
+		st := reflect.New(reflect.StructOf(fs)).Elem()
+		for i, n := range nums {
+			st.Field(i).Set(mk(n))
+		}
+		return st.Interface()
+	case 3:
+		p := reflect.New(rt)
+		p.Elem().Set(mk(nums[0]))
+		return p.Interface()
+	case 4:
+		m := reflect.MakeMap(reflect.MapOf(reflect.TypeOf(""), rt))
+		m.SetMapIndex(reflect.ValueOf("k"), mk(nums[0]))
+		return m.Interface()
+	}
+	return mk(nums[0]).Interface()
 }
